@@ -2,7 +2,7 @@
 import json
 from . import common as C
 
-HEADER = 'From WM Require Import Base.Prelude Message.Model Handler.RouterHandle Decor.Model Decor.Monitor Corr.C20.\n'
+HEADER = 'From WM Require Import Base.Prelude Message.Model Handler.RouterHandle Decor.Model Decor.Monitor Decor.RouterMetrics Decor.MwStack Corr.C20.\n'
 ST = ['Unsettled', 'Acked', 'Nacked']
 SIG_TWICE = 'C20/handler-middleware-twice-counts-twice'
 SIG_D11 = 'C20/handler-panic-recorded-as-success'
@@ -106,7 +106,7 @@ def sub_case(c):
 
 HOUT = ['HOk', 'HErr', 'HPanic']
 def mw_case(c):
-    msgs = L(['(RMsg %s %d %s)' % (HOUT[m['out']], m['nouts'], B(m['pub_ok'])) for m in c['msgs']])
+    msgs = L(['(RMsg %s %d %s)' % (HOUT[m['out']], m['nouts'], 'PubPanic' if m.get('pub_panic') else ('PubAccept' if m['pub_ok'] else 'PubError')) for m in c['msgs']])
     return '(MwCase %d %s %s %s %s %s %s %s %s)' % (c['layers'], B(c['router']), N(c['h']), N(c['s']), N(c['p']), msgs,
                                                   tab2(c['htab']), tab3(c['stab']), tab3(c['ptab']))
 
@@ -143,7 +143,7 @@ def describe_sub(c, strings):
 
 def describe_mw(c, strings):
     return dict(kind='handler middleware' + (' in a Router with AddPrometheusRouterMetrics' if c['router'] else ' called directly'), times_applied=c['layers'],
-                invocations=[dict(outcome=['ok', 'error', 'panic'][m['out']], outputs=m['nouts'], returns_consumed_message=m.get('pass', False), publisher_accepts=m['pub_ok'],
+                invocations=[dict(outcome=['ok', 'error', 'panic'][m['out']], outputs=m['nouts'], returns_consumed_message=m.get('pass', False), publisher_accepts=m['pub_ok'], publisher_panics=m.get('pub_panic', False),
                                   panic_value=['string', 'error', 'nil'][m['panicv']] if m['out'] == 2 else None) for m in c['msgs']],
                 handler_execution_time_seconds=[[strings[r[0]]] + r[1:] for r in c['htab']],
                 subscriber_messages_received_total=[[strings[r[0]], strings[r[1]]] + r[2:] for r in c['stab']],
@@ -246,14 +246,14 @@ def one_round(res, pid, seed, n, rnd, race=False):
             continue
         good.append(c)
         res.count('mw %s layers=%d' % ('router' if c['router'] else 'direct', c['layers']))
-        for m in c['msgs']: res.count('mw outcome=%s' % ['ok', 'error', 'panic'][m['out']] + ('+outputs' if m['nouts'] else '') + ('(the consumed message itself)' if m.get('pass') else '') + ('' if m['pub_ok'] or not m['nouts'] else '+publish-fails'))
-        res.nontrivial.add(('mw', c['router'], c['layers'], tuple((m['out'], m['nouts'], m['pub_ok'], m.get('pass')) for m in c['msgs'])))
+        for m in c['msgs']: res.count('mw outcome=%s' % ['ok', 'error', 'panic'][m['out']] + ('+outputs' if m['nouts'] else '') + ('(the consumed message itself)' if m.get('pass') else '') + ('' if not m['nouts'] else ('+publisher-panics' if m.get('pub_panic') else ('' if m['pub_ok'] else '+publish-fails'))))
+        res.nontrivial.add(('mw', c['router'], c['layers'], tuple((m['out'], m['nouts'], m['pub_ok'], m.get('pass'), m.get('pub_panic')) for m in c['msgs'])))
     if good:
         r = C.coq_eval(pid, 'cases_mw_%d' % rnd, HEADER + 'Definition cases : list mw_case := %s.\n' % L([mw_case(c) for c in good]),
-                       [('R_mis', 'c20_mw_mismatches true cases'), ('R_pin', 'c20_mw_mismatches false cases'), ('R_vio', 'c20_mw_violations cases')])
+                       [('R_mis', 'c20_mw_mismatches true true cases'), ('R_pin', 'c20_mw_mismatches false true cases'), ('R_twice', 'c20_mw_mismatches true false cases'), ('R_vio', 'c20_mw_violations cases')])
         for i in r['R_vio']:
             c = good[i]
-            if i not in r['R_mis'] and c['layers'] > 1:
+            if i not in r['R_twice'] and c['layers'] > 1:
                 sig, what = SIG_TWICE, 'HandlerPrometheusMetricsMiddleware applied %d times observes every handler invocation %d times (no context mark, unlike the decorators)' % (c['layers'], c['layers'])
             elif i not in r['R_pin']:
                 sig, what = SIG_D11, 'a panicking handler is recorded with success="true" (the deferred observer sees err == nil while the panic propagates)'
@@ -264,6 +264,32 @@ def one_round(res, pid, seed, n, rnd, race=False):
             res.mismatches.append(dict(kind='Corr.C20.mw_mismatch (Decor/Model.v run_mw + Handler/RouterHandle.v handle vs the real middleware / Router)',
                                        explained_by_violation=i in r['R_vio'], case=describe_mw(good[i], strings)))
         if rnd == 0: res.sample(describe_mw(good[1 if len(good) > 1 else 0], strings))
+    # ---- the middleware in handler chains with Retry
+    ms = data.get('mwstack', [])
+    good = []
+    for c in ms:
+        res.evaluations += 1
+        res.count('mw chain=%s' % '>'.join(c['stack']))
+        if c.get('problem') or bad_rows(c['htab']):
+            res.violations.append(dict(signature='C20/mwstack:' + str(c.get('problem') or 'bad label value'), what=str(c.get('problem')), case=c)); continue
+        if not c['ctx_kept']:
+            res.violations.append(dict(signature='C20/mwstack-context-change-lost', what='a context value set by the handler is no longer on the message after the metrics middleware returned', case=c)); continue
+        good.append(c)
+        res.nontrivial.add(('mwstack', tuple(c['stack']), c['top'], tuple(c['script']), c['same_msg']))
+    if good:
+        def term(c):
+            st = L(['LM' if x == 'M' else '(LR %s)' % x[1:] for x in c['stack']])
+            return '(MwStackCase %s 0%%N %d %s %s)' % (st, c['top'], L([HOUT[o] for o in c['script']]), tab2(c['htab']))
+        r = C.coq_eval(pid, 'cases_mwstack_%d' % rnd, HEADER + 'Definition cases : list mwstack_case := %s.\n' % L([term(c) for c in good]),
+                       [('R_mis', 'c20_mwstack_mismatches true cases'), ('R_pin', 'c20_mwstack_mismatches false cases'), ('R_vio', 'c20_mwstack_violations cases')])
+        for i in r['R_vio']:
+            if i not in r['R_pin']:
+                sig, what = SIG_TWICE, 'the metrics middleware applied more than once in a chain observes a handler invocation more than once'
+            else:
+                sig, what = 'C20/handler-chain-miscount', 'handler observations of a chain with Retry differ from one per invocation of the outermost application with its outcome'
+            res.violations.append(dict(signature=sig, what=what, case=good[i]))
+        for i in r['R_mis']:
+            res.mismatches.append(dict(kind='Corr.C20.mwstack_mismatch (Decor/MwStack.v hrun vs the real middleware + Retry chain)', explained_by_violation=i in r['R_vio'], case=good[i]))
     # ---- delay constructors
     dc = data['delay']
     for c in dc:
